@@ -1,11 +1,159 @@
 import Oracle.Util
+import Wz.Model.Isolation
+import Wz.Gen.C11Sharing
+/-
+Oracle topic c11: `c11 <world> <cmd> …`. One world = one heap with compiled modules (shared objects) and
+instances; ops run through `hstep` (the heap semantics with sharing), with the instantiation shape
+regenerated from the Go source (`Wz.Gen.C11Sharing.shape`).
+-/
 namespace Oracle.C11
-open Oracle
+open Oracle Wz.Model.Isolation
 
-/-- Topic state (stub: no model behind this topic yet). -/
-abbrev St := Unit
-def init : St := ()
+structure World where
+  env : Env := ⟨[], [], []⟩
+  heap : Heap := Heap.empty
+  mods : List (Nat × Module) := []
+  insts : List (Nat × Inst) := []
 
-def step (st : St) (_args : List String) : St × String := (st, "bad-op")
+abbrev St := List (Nat × World)
+def init : St := []
+
+def emptyMod : Module := ⟨0, 0, 0, 0, [], [], [], [], [], []⟩
+
+def parseRefs (s : String) : Option (List Nat) :=
+  if s == "-" then some [] else (s.splitOn ",").mapM parseNat
+
+def suffixNat (name pre : String) : Option Nat :=
+  if name.startsWith pre then (name.drop pre.length).toString.toNat? else none
+
+def parseOp (name : String) (a : List Nat) : Option Op :=
+  match name, a with
+  | "store32", [x, v] => some (.m (.store32 x v))
+  | "load32", [x] => some (.m (.load32 x))
+  | "store8", [x, v] => some (.m (.store8 x v))
+  | "load8", [x] => some (.m (.load8 x))
+  | "mgrow", [n] => some (.m (.grow n))
+  | "msize", [] => some (.m .size)
+  | "mfill", [d, v, n] => some (.m (.fill d v n))
+  | "mcopy", [d, s, n] => some (.m (.copy d s n))
+  | "tnull", [i] => some (.t (.null i))
+  | "tmove", [i, j] => some (.t (.move i j))
+  | "tisnull", [i] => some (.t (.isnull i))
+  | "tgrow", [n] => some (.t (.grow n))
+  | "tsize", [] => some (.t .size)
+  | "tcopy", [d, s, n] => some (.t (.copy d s n))
+  | "calli", [i] => some (.calli i)
+  | "w_write", [fd, p, n] => some (.s (.write fd p n))
+  | "w_read", [fd, p, n] => some (.s (.read fd p n))
+  | "w_close", [fd] => some (.s (.close fd))
+  | "w_renumber", [x, y] => some (.s (.renumber x y))
+  | "w_open", [dirfd, p, l, oflags, _, _] => some (.s (.open_ dirfd p l oflags))
+  | "w_clock", [id] => some (.s (.clock id))
+  | "w_random", [p, n] => some (.s (.random p n))
+  | _, _ =>
+    match suffixNat name "gset", suffixNat name "gget", suffixNat name "minit", suffixNat name "ddrop",
+          suffixNat name "tinit", suffixNat name "edrop", a with
+    | some k, _, _, _, _, _, [v] => some (.g (.set k v))
+    | _, some k, _, _, _, _, [] => some (.g (.get k))
+    | _, _, some k, _, _, _, [d, s, n] => some (.minit k d s n)
+    | _, _, _, some k, _, _, [] => some (.ddrop k)
+    | _, _, _, _, some k, _, [d, s, n] => some (.tinit k d s n)
+    | _, _, _, _, _, some k, [] => some (.edrop k)
+    | _, _, _, _, _, _, _ => none
+
+def showRes : Res → String
+  | .ok vs => vs.foldl (fun s v => s ++ " " ++ toString v) "ok"
+  | .trap k => "trap:" ++ k
+  | .fault => "fault"
+
+def showState (s : LState) : String :=
+  let cells := (s.mem.cells.filter (fun c => c.2 != 0)).mergeSort (fun a b => a.1 ≤ b.1)
+  let tblS := s.tbl.foldl (fun acc r =>
+    acc ++ (match r with
+      | 0 => "n"
+      | f + 1 => match s.fns[f]? with
+        | some (c, true) => toString ((c + glob0 s.glob) % 4294967296)
+        | _ => "x") ++ ",") ""
+  s!"pages={s.mem.pages} glob=" ++ s.glob.foldl (fun acc g => acc ++ toString g.2 ++ ",") "" ++
+  " tbl=" ++ tblS ++ " mem=" ++ cells.foldl (fun acc c => acc ++ toString c.1 ++ ":" ++ toString c.2 ++ ",") ""
+
+def updMod (w : World) (mid : Nat) (f : Module → Module) : World :=
+  { w with mods := assocSet w.mods mid (f ((assocGet w.mods mid).getD emptyMod)) }
+
+def stepW (w : World) (args : List String) : Option (World × String) :=
+  match args with
+  | ["world", rnd, stdin] => do
+    let r ← parseBytes rnd
+    let s ← parseBytes stdin
+    pure ({ w with env := ⟨r, [], s⟩ }, "ok")
+  | ["file", name, content] => do
+    let n ← parseBytes name
+    let c ← parseBytes content
+    pure ({ w with env := { w.env with files := w.env.files ++ [(n, c)] } }, "ok")
+  | ["mod", mid, a, b, c, d] => do
+    let mid ← parseNat mid; let a ← parseNat a; let b ← parseNat b; let c ← parseNat c; let d ← parseNat d
+    pure (updMod w mid (fun _ => { emptyMod with memMin := a, memMax := b, tblMin := c, tblMax := d }), "ok")
+  | ["glob", mid, bits, v] => do
+    let mid ← parseNat mid; let bits ← parseNat bits; let v ← parseNat v
+    pure (updMod w mid (fun m => { m with globals := m.globals ++ [(bits, v)] }), "ok")
+  | ["fn", mid, c, ok] => do
+    let mid ← parseNat mid; let c ← parseNat c; let ok ← parseBool ok
+    pure (updMod w mid (fun m => { m with fns := m.fns ++ [(c, ok)] }), "ok")
+  | ["dpas", mid, bs] => do
+    let mid ← parseNat mid; let bs ← parseBytes bs
+    pure (updMod w mid (fun m => { m with dpas := m.dpas ++ [bs] }), "ok")
+  | ["dact", mid, off, bs] => do
+    let mid ← parseNat mid; let off ← parseNat off; let bs ← parseBytes bs
+    pure (updMod w mid (fun m => { m with dact := m.dact ++ [(off, bs)] }), "ok")
+  | ["epas", mid, rs] => do
+    let mid ← parseNat mid; let rs ← parseRefs rs
+    pure (updMod w mid (fun m => { m with epas := m.epas ++ [rs] }), "ok")
+  | ["eact", mid, off, rs] => do
+    let mid ← parseNat mid; let off ← parseNat off; let rs ← parseRefs rs
+    pure (updMod w mid (fun m => { m with eact := m.eact ++ [(off, rs)] }), "ok")
+  | ["seal", mid] => do
+    let mid ← parseNat mid
+    let m ← assocGet w.mods mid
+    pure ({ w with heap := loadModule w.heap mid m }, "ok")
+  | ["inst", iid, mid] => do
+    let iid ← parseNat iid; let mid ← parseNat mid
+    let m ← assocGet w.mods mid
+    let r := instantiate Wz.Gen.C11Sharing.shape w.heap mid m iid
+    pure ({ w with heap := r.1, insts := assocSet w.insts iid r.2 }, "ok")
+  | "op" :: iid :: name :: rest => do
+    let iid ← parseNat iid
+    let a ← parseNats rest
+    let o ← parseOp name a
+    let i ← assocGet w.insts iid
+    let r := hstep w.env w.heap i o
+    pure ({ w with heap := r.1 }, showRes r.2)
+  | ["state", iid] => do
+    let iid ← parseNat iid
+    let i ← assocGet w.insts iid
+    match view w.heap i with
+    | some s => pure (w, showState s)
+    | none => pure (w, "fault")
+  | ["out", iid] => do
+    let iid ← parseNat iid
+    let i ← assocGet w.insts iid
+    match view w.heap i with
+    | some s => pure (w, bytesToHex s.sys.out)
+    | none => pure (w, "fault")
+  | _ => none
+
+def step (st : St) (args : List String) : St × String :=
+  match args with
+  | [wid, "drop"] =>
+    match parseNat wid with
+    | some wid => (st.filter (·.1 != wid), "ok")
+    | none => (st, "bad-op")
+  | wid :: rest =>
+    match parseNat wid with
+    | some wid =>
+      match stepW ((assocGet st wid).getD {}) rest with
+      | some (w, ans) => (assocSet st wid w, ans)
+      | none => (st, "bad-op")
+    | none => (st, "bad-op")
+  | _ => (st, "bad-op")
 
 end Oracle.C11
